@@ -96,7 +96,8 @@ p_socket_address_new_from_native (pconstpointer	native,
 	PSocketAddress	*ret;
 	puint16		family;
 
-	if (P_UNLIKELY (native == NULL || len == 0))
+	/* The address family is read below, the buffer must hold at least a generic address header */
+	if (P_UNLIKELY (native == NULL || len < sizeof (struct sockaddr)))
 		return NULL;
 
 	if (P_UNLIKELY ((ret = p_malloc0 (sizeof (PSocketAddress))) == NULL))
